@@ -380,6 +380,8 @@ func genDex() (string, error) {
 		{"lib/dex.go", "DexBatch", "IsEmpty", false},
 		{"lib/dex.go", "DexBatch", "CopyOrders", false},
 		{"lib/dex.go", "DexLimitOrderWithKey", "HashKey", true},
+		{"fsm/message_helpers.go", "MessageSubsidy", "Check", true},
+		{"fsm/message.go", "StateMachine", "HandleMessageSubsidy", true},
 	} {
 		f := files[s.path]
 		if f == nil {
@@ -394,7 +396,11 @@ func genDex() (string, error) {
 		}
 		src := g.StmtsText(fd.Body.List)
 		if s.verbatim {
-			fmt.Fprintf(&b, "def src_%s : String := %q\n", s.name, src)
+			nm := s.name
+			if nm == "Check" {
+				nm = s.recv + "_Check"
+			}
+			fmt.Fprintf(&b, "def src_%s : String := %q\n", nm, src)
 		} else {
 			h := sha256.Sum256([]byte(src))
 			digests = append(digests, fmt.Sprintf("(%q, %q)", s.name, hex.EncodeToString(h[:8])))
